@@ -172,6 +172,14 @@ impl Check for Refactor {
         } else {
             Server::start_mem(&lib, "")
         };
+        // half of the sessions: the server has seen an edit of every note first (index and line maps built
+        // incrementally instead of by the initial import)
+        if rng.chance(1, 2) {
+            for (k, t) in &lib {
+                s.did_change(k, t);
+            }
+            rep.count("sessions_after_resend", 1);
+        }
         let mine: &[&str] = if self.prop == "C09" {
             &["refactor.extract.section", "refactor.extract.subsections", "refactor.inline.reference.section", "refactor.inline.reference.quote"]
         } else {
